@@ -59,6 +59,7 @@ def call_builtin(I, name, args, kwargs, fr):
         if isinstance(v, VSeq):
             return VSeq(v.t, kind)
         if isinstance(v, VInt):
+            I.alloc_obligation(v.t, fr, None, name + '(n)')
             r = I.call_spec('seq_repeat', VSeq(z3.Unit(z3.IntVal(0)), 'list'), v)
             return VSeq(r.t, kind)
         raise OutOfSubset('%s(%r)' % (name, v))
